@@ -62,6 +62,26 @@ func mkFacts(es []gen.Entry, class string) *facts {
 
 func (f *facts) repeatedDir(p string) bool { return f != nil && len(f.dirEntries[p]) >= 2 }
 
+// hasRepeatedChildDir: some direct sub-directory of p has two or more "dir" entries.
+func (f *facts) hasRepeatedChildDir(p string) bool {
+	if f == nil {
+		return false
+	}
+	for d, idx := range f.dirEntries {
+		if len(idx) < 2 || d == "" {
+			continue
+		}
+		par := ""
+		if i := strings.LastIndex(d, "/"); i >= 0 {
+			par = d[:i]
+		}
+		if par == p {
+			return true
+		}
+	}
+	return false
+}
+
 // hasLateChildDir: some direct sub-directory of p got its (first) explicit entry only
 // after an entry located beneath it had already made it exist implicitly.
 func (f *facts) hasLateChildDir(p string) bool {
@@ -195,10 +215,12 @@ func (c *cmpCtx) cmpAttr(path string, a, b *attrRec, suffix string, seen map[str
 	}
 	if nlink(a.NumLink) != nlink(b.NumLink) {
 		switch {
-		case isDir && path == "" && c.f != nil && c.f.explicitRoot:
-			emit("nlink:dir-differs@explicit-root", "link count of the root directory differs when the archive has an explicit root entry", a.NumLink, b.NumLink)
+		case isDir && c.f.hasRepeatedChildDir(path):
+			emit("nlink:dir-differs@parent-of-repeated-dir", "link count of a directory differs when one of its sub-directories has several entries in the TOC (one store counts the sub-directory once per entry)", a.NumLink, b.NumLink)
 		case isDir && c.f.hasLateChildDir(path):
 			emit("nlink:dir-differs@child-dir-declared-after-use", "link count of a directory differs when one of its sub-directories is declared by an entry that comes after entries beneath it (implicit creation first, explicit entry later)", a.NumLink, b.NumLink)
+		case isDir && path == "" && c.f != nil && c.f.explicitRoot:
+			emit("nlink:dir-differs@explicit-root", "link count of the root directory differs when the archive has an explicit root entry", a.NumLink, b.NumLink)
 		case isDir && c.f.repeatedDir(path):
 			emit("nlink:dir-differs@repeated-dir", "link count of a repeated directory differs", a.NumLink, b.NumLink)
 		case isDir:
